@@ -5,6 +5,7 @@ import (
 	"encoding/json"
 	"fmt"
 	"os"
+	"strings"
 
 	"verif/engine/explore"
 	"verif/engine/spec"
@@ -88,9 +89,15 @@ func replayHistory(property, fullSig string, payload json.RawMessage) int {
 		return 2
 	}
 	var prof *explore.Profile
+	wantName := hr.Profile
+	if strings.HasSuffix(wantName, "+long-ids") {
+		wantName = strings.TrimSuffix(wantName, "+long-ids")
+		useLongIDs(true)
+		defer useLongIDs(false)
+	}
 	for _, tier := range []Tier{"quick", "thorough"} {
 		for _, p := range mk(tier) {
-			if p.Name == hr.Profile && prof == nil {
+			if p.Name == wantName && prof == nil {
 				prof = p
 			}
 		}
